@@ -104,12 +104,32 @@ parameter; more than 256 parameters overflow the Unprocessed[] mask (p2bin SIGSE
 Mutations tried on scratch copies (all pass the 201 golden tests, `./check C17 --tier quick` exits 1 for each): argv
 scanned before ASCMD; DecodeLine not skipping a consumed argument; ParamError exit(2); look-ahead not blanked for a
 following `+switch`; -o names handed out in reverse order.
+
+Extension "per-pass state under the report options" (checks/ext_passreports.py, spec/PassReports*.tla; TLC works beside
+the phases above, its programs join the option matrix as one more source family).  Added because a change of as.c
+AssembleFile() that ran ClearDefineList() only inside `if (MakeCrossList)` - without -C the #defines of the end of pass 1
+survive into pass 2, where a repeated #define is silently ignored - went unnoticed (it also passes the 201 golden tests):
+no source of the matrix both needed a second pass and gave a #define name a second meaning, i.e. the CODE of no program
+could see what the previous pass left behind, so the option-guarded clean-ups between two passes were never tried
+against the code file.  The missing dimension is per-pass state x position of reader and writer x number of passes:
+PassReports.tla transcribes the clean-up between two passes and the InitPass resets as a table (component -> option
+under which it is recorded, guard of its clean-up: ClearUseList / -u, ClearCrossList / -C, ClearLineInfo,
+ResetAddressRanges, ClearSectionUsage / -g, ClearCodepages, ClearDefineList, ClearIncludeList unguarded) next to the
+declarative side (a probe reads the settings made in front of it; a report holds the entries of one pass); TLC checks
+CodeOK / ReportsOK / GuardsOK under the option subsets, refutes two deviating tables (ClearDefineList under -C,
+ClearCrossList under -u) and prints 280 (quick) / 4 330 (thorough) programs over Probe / Set of ten settings (radix,
+outradix, relaxed, enumconf, listing, charset, codepage, IFUSED, #undef + #define again, a symbol #defined later), Touch
+of ten report components (cross reference, usage, line info, address ranges, section usage, include list, -P, -M,
+listing page state, share file) and forward references giving 1, 2 and 3 passes.  Program n runs plain, under
+Rotation(n) and AllOn (2 460 / 39 000 runs): byte-identical code files - the comparison of the matrix; the bytes TLC expects
+vs. the plain run is SPEC-DRIFT (C08's property).  No finding on the unchanged tree.  Mutations caught by the quick tier
+(exit 1): the seeded change (150 violations, culprit C), RadixBase reset only without -u (53), `used` flags kept under -C (64).
 """
 import json
 import os
 import re
 
-from checks import ext_cmdline, ext_incsearch
+from checks import ext_cmdline, ext_incsearch, ext_passreports
 from vlib import aslrun, build, drvrun, tlc
 from vlib.aslrun import INCLUDE
 from vlib.common import CheckError, Phase, log, rng
@@ -225,6 +245,8 @@ def make_job(src, vec):
     else:
         job["files"] = dict(GEN_INCLUDES)
         job["files"]["%s/%s.asm" % (name, name)] = src["text"]
+        for rel, text in src.get("files", {}).items():       # include files lying beside the source
+            job["files"]["%s/%s" % (name, rel)] = text
     base = list(src["flags"]) + ["-i", INCLUDE]
     if vec is None:
         job["argv"] = base + ["-q", "%s/%s.asm" % (name, name)]
@@ -414,11 +436,16 @@ def attribute(rep, bld, failing, plain):
         sym = "+".join(sorted(symptom.get(k, []))) or "none"
         rep.violation("code file of %s differs from the plain run under configuration %s (plain: rc=%s %s bytes, here: "
                       "rc=%s %s bytes; factors reproducing it alone: %s; error numbers: %s): %s"
-                      % (name, tag, pr.rc, None if ref is None else len(ref), res.rc, None if got is None else len(got),
+                      % (name if "passprog" not in s else "%s [%s, %d pass(es)]" % (name, ext_passreports.brief(s["passprog"]),
+                                                                                         s["passprog"]["passes"]),
+                         tag, pr.rc, None if ref is None else len(ref), res.rc, None if got is None else len(got),
                          cul, sym, " ".join(job["argv"])),
-                      case={"source": name, "vector": vec, "tag": str(tag)},
-                      files={"argv": " ".join(job["argv"]), "env": json.dumps(job.get("env")),
-                             "stdout.txt": res.out[-3000:], "stderr.txt": res.err[-3000:]},
+                      case={"source": name, "vector": vec, "tag": str(tag),
+                            "program": ext_passreports.brief(s["passprog"]) if "passprog" in s else None},
+                      files=dict([("argv", " ".join(job["argv"])), ("env", json.dumps(job.get("env"))),
+                                  ("stdout.txt", res.out[-3000:]), ("stderr.txt", res.err[-3000:])] +
+                                 ([(name + ".asm", s["text"])] if s.get("text") else []) +      # generated sources: the text itself
+                                 [(os.path.basename(k), v) for k, v in s.get("files", {}).items()]),
                       key={"kind": "codediff", "culprit": cul, "mechanism": s.get("mechanism", "unknown")})
 
 
@@ -426,6 +453,7 @@ def main(tier):
     rep = Report(PID, tier)
     bld = build.get("hook")
     incsearch = ext_incsearch.start(bld, tier)      # extension: include search x working directory, works beside the phases below
+    passrep = ext_passreports.start(tier)           # extension: per-pass state under the report options (TLC beside the phases below)
     rep.assumptions += ["the specification contributes the option partition, the covering array and the model-level "
                         "non-interference check; the verdict is differential execution of the real asl",
                         "byte comparison and date/time masking (Python) are trusted"]
@@ -480,6 +508,15 @@ def main(tier):
         for tag, v in items:
             tagvec[(s["name"], tag)] = v
             jobs.append((s, tag, make_job(s, v)))
+    # extension "per-pass state": the programs TLC generated from PassReports_MC are one more source family of the matrix;
+    # program number n runs plain, under Rotation(n) (every value of every report option) and under AllOn
+    psrcs = ext_passreports.sources(rep, passrep)
+    for idx, s in enumerate(psrcs):
+        rot = rots[(len(srcs) + idx) % len(rots)]
+        for tag, v in [("plain", None)] + [(("vec", k - 1), vecs[k - 1]) for k in rot] + [("allon", allon)]:
+            tagvec[(s["name"], tag)] = v
+            jobs.append((s, tag, make_job(s, v)))
+    srcs = srcs + psrcs
     with Phase("run %d configurations of %d sources" % (len(jobs), len(srcs))):
         results = drvrun.run_many(bld, [j for (_, _, j) in jobs])
     plain, first, failing = {}, {}, []
@@ -529,6 +566,8 @@ def main(tier):
             if other:
                 rep.drift("%s: outputs outside the property's list differ between identical runs: %s" % (name, other))
     attribute(rep, bld, failing, plain)
+    ext_passreports.finish(rep, passrep, [(s, tag, None, job, res) for (s, tag, job), res in zip(jobs, results)
+                                          if tag == "plain" and "passprog" in s])
     rep.traces(len(jobs))
     for (s, tag, job) in jobs[2:5]:
         rep.sample({"source": s["name"], "argv": job["argv"], "env": job.get("env"), "cwd": job.get("cwd")})
@@ -540,6 +579,8 @@ def main(tier):
              "quick = all 201 golden + 16 generated sources, each under a rotating 1-wise cover of the pairwise sample + "
              "AllOn (every (source, option value) pair); thorough = each under the whole pairwise sample + AllOn; generated "
              "sources also under every single option; plus a repeated plain run and 2 repeated vector runs per source; "
+             "per-pass state: every program printed by PassReports_MC (settings x report components x 1 / 2 / 3 passes) "
+             "plain, under a rotating 1-wise cover and AllOn; "
              "distinct = distinct (source, argv, env); every evaluation compares a code file with the plain run's; include "
              "search: every TLC-printed group (files in <= 2 / all subsets of 6 directories x name form x nesting x include "
              "path) run from 4 working directories x 2 / 4 spellings, code files compared within the group",
